@@ -15,7 +15,7 @@ pub const DEF: PropDef = PropDef {
     run,
     replay,
     level: "exploration",
-    rule: "model-based differential: op sequences over {write i->r, deliver oldest pending i->r, write r->i, deliver r->i, rekey_outgoing / rekey_incoming on either side, rekey_manually(Some/None, Some/None), rekey_initiator_manually, rekey_responder_manually with keys from a 10-element pool (three fresh keys, two of them sharing a 24-byte prefix, the session's two initial keys, all-zero / constant-fill keys and two keys of the form s||s)} - exhaustive to depth 4 (thorough 5) over a 12-symbol core alphabet (one level less for the one-way / K configurations) and random to depth 40 over the full set - for all ciphers x backends (default, ring-first) x stateful/stateless x interactive/one-way. Model: per endpoint and direction one key value, initial keys from the reference model's Split(); auto rekey sets k <- ENCRYPT_ref(k, 2^64-1, '', 0^32)[..32] with the reference AEAD. Oracle: every written message equals ENCRYPT_ref(k_out, n, '', payload) byte for byte; a delivery is accepted iff the sender's key at write time equals the receiver's current key for that direction and the nonce matches; nonces are untouched by any rekey call. Non-trivial = the sequence contains a rekey and a later delivery; distinct by (config, sequence)",
+    rule: "model-based differential: op sequences over {write i->r, deliver oldest pending i->r, write r->i, deliver r->i, rekey_outgoing / rekey_incoming on either side, rekey_manually(Some/None, Some/None), rekey_initiator_manually, rekey_responder_manually with keys from a 10-element pool (three fresh keys, two of them sharing a 24-byte prefix, the session's two initial keys, all-zero / constant-fill keys and two keys of the form s||s)} - exhaustive to depth 4 (thorough 5) over a 12-symbol core alphabet (one level less for the one-way / K configurations) scenario lists with rekeys (automatic / manual, both sides / one side) issued while the counters stand at each of 13 values incl. 2^64-1 (the caller then moves them back), and random to depth 40 over the full set - for all ciphers x backends (default, ring-first) x stateful/stateless x interactive/one-way. Model: per endpoint and direction one key value, initial keys from the reference model's Split(); auto rekey sets k <- ENCRYPT_ref(k, 2^64-1, '', 0^32)[..32] with the reference AEAD. Oracle: every written message equals ENCRYPT_ref(k_out, n, '', payload) byte for byte; a delivery is accepted iff the sender's key at write time equals the receiver's current key for that direction and the nonce matches; nonces are untouched by any rekey call. Non-trivial = the sequence contains a rekey and a later delivery; distinct by (config, sequence)",
     technique: "model-based differential testing against the reference AEAD/REKEY (unwrapped real backends); bounded-exhaustive + proptest",
     assumptions: &["REKEY is validated against the specification text only (section 4.2); no third-party vectors exist for it"],
     panic_is_violation: false,
@@ -128,6 +128,9 @@ fn oracle(c: &Case, acc: &mut Acc) -> CaseResult {
                     continue;
                 }
                 let s = d; // sender side index: dir 0 -> initiator(0), dir 1 -> responder(1)
+                if sn[d] == u64::MAX {
+                    continue; // the counter stands at the reserved value (C09's business): nothing to write
+                }
                 let payload = expand(c.seed, 100 + step as u64, step % 40);
                 let got = match &mut ts[s] {
                     T::F(t) => t_write(t, &payload, payload.len() + 16),
@@ -226,7 +229,9 @@ fn oracle(c: &Case, acc: &mut Acc) -> CaseResult {
                 if (oneway && d == 1) || !pending[d].is_empty() {
                     continue; // only when nothing is in flight in that direction
                 }
-                let v = [254u64, 65534, (1 << 24) - 2, (1 << 31) - 2, (1 << 32) - 2, (1 << 32) + 7, (1 << 48) - 2, (1 << 63) - 2, u64::MAX - 40][*which as usize % 9];
+                // incl. the reserved value itself (rekeys issued while a counter stands there must take
+                // effect all the same) and small values (the caller moves the counters back)
+                let v = [254u64, 65534, (1 << 24) - 2, (1 << 31) - 2, (1 << 32) - 2, (1 << 32) + 7, (1 << 48) - 2, (1 << 63) - 2, u64::MAX - 40, u64::MAX, 3, u64::MAX, 1000][*which as usize % 13];
                 sn[d] = v;
                 rn[d] = v;
                 let (s, r) = (d, 1 - d);
@@ -341,6 +346,53 @@ pub fn run(ctx: &Ctx) {
             oracle,
         );
     }
+    // rekeys issued while the counters stand at each of the jump values (incl. 2^64-1, after which
+    // the caller moves them back): synchronised (both sides) and one-sided, automatic and manual
+    {
+        let mut sc = Vec::new();
+        for (ci, (si, b, stateless, pat)) in cfgs.iter().enumerate() {
+            for which in 0..13u8 {
+                for kind in 0..4u8 {
+                    for one_sided in [false, true] {
+                        if (ci + which as usize + kind as usize) % ctx.tier.pick(3, 1) != 0 {
+                            continue;
+                        }
+                        let mut ops = vec![Op::Write(false), Op::Deliver(false), Op::Jump(false, which)];
+                        match kind {
+                            0 => {
+                                ops.push(Op::RekeyOut(true));
+                                if !one_sided {
+                                    ops.push(Op::RekeyIn(false));
+                                }
+                            },
+                            1 => {
+                                ops.push(Op::RekeyIn(false));
+                                if !one_sided {
+                                    ops.push(Op::RekeyOut(true));
+                                }
+                            },
+                            2 => {
+                                ops.push(Op::ManualI(true, 1));
+                                if !one_sided {
+                                    ops.push(Op::ManualI(false, 1));
+                                }
+                            },
+                            _ => {
+                                ops.push(Op::Manual(false, Some(0), Some(2)));
+                                if !one_sided {
+                                    ops.push(Op::Manual(true, Some(0), Some(2)));
+                                }
+                            },
+                        }
+                        // back to a usable counter, then traffic
+                        ops.extend([Op::Jump(false, 12), Op::Write(false), Op::Deliver(false), Op::Write(false), Op::Deliver(false)]);
+                        sc.push(Case { pattern: pat.to_string(), suite_idx: *si, backend: *b, stateless: *stateless, ops, seed: mix(seed, 9000 + (ci * 100 + which as usize * 8 + kind as usize) as u64) });
+                    }
+                }
+            }
+        }
+        ctx.run_list("rekey_at_counter_values", &sc, false, oracle);
+    }
     ctx.run_prop(
         "random_sequences",
         ctx.tier.pick(8000, 100_000),
@@ -354,7 +406,7 @@ pub fn run(ctx: &Ctx) {
                 1 => (any::<bool>(), k(), k()).prop_map(|(s, a, b)| Op::Manual(s, a, b)),
                 1 => (any::<bool>(), 0u8..10).prop_map(|(s, a)| Op::ManualI(s, a)),
                 1 => (any::<bool>(), 0u8..10).prop_map(|(s, a)| Op::ManualR(s, a)),
-                1 => (any::<bool>(), 0u8..9).prop_map(|(d, w)| Op::Jump(d, w)),
+                2 => (any::<bool>(), 0u8..13).prop_map(|(d, w)| Op::Jump(d, w)),
             ];
             (prop_oneof![3 => Just("NN"), 1 => Just("N"), 1 => Just("XX"), 1 => Just("K")], 0usize..24, any::<bool>(), any::<bool>(), prop::collection::vec(op, 0..40), any::<u64>()).prop_map(|(p, suite_idx, ring, stateless, ops, seed)| Case {
                 pattern: p.to_string(),
